@@ -93,6 +93,79 @@ fn census_lines() -> Vec<String> {
         .collect()
 }
 
+
+/// Histories a program can start from.  Every one ends in a failure or leaves something behind inside the
+/// interpreter (a suspended fiber, a dead fiber chain, a half-run statement); none defines a name the corpus
+/// programs use.  ("\u{0}reset" is the runner's pseudo-snippet for `Vm::reset`.)
+pub const HISTORIES: &[(&str, &[&str])] = &[
+    ("uncaught_throw_at_top_level", &["throw \"top\";\n"]),
+    ("uncaught_throw_two_calls_deep", &["fn zt2() { throw \"deep\"; }\nfn zt1() { zt2(); }\nzt1();\n"]),
+    ("uncaught_throw_in_a_fiber", &["Fiber.new(|| { throw \"in fiber\"; }).call();\n"]),
+    ("uncaught_throw_through_two_fibers", &["var zfi = Fiber.new(|| { throw \"inner fiber\"; });\nvar zfo = Fiber.new(|| { zfi.call(); });\nzfo.call();\n"]),
+    ("uncaught_throw_through_a_finally_block", &["try { throw \"tf\"; } finally { print(\"fin\"); }\n"]),
+    ("uncaught_error_raised_in_a_finally_block_running_for_an_exception", &["fn zq() { try { try { throw \"x\"; } finally { [][3]; } } finally { print(\"f2\"); } }\nzq();\n"]),
+    ("uncaught_throw_from_a_finally_block_with_a_return_waiting", &["fn zr() { try { return 1; } finally { throw \"in finally\"; } }\nzr();\n"]),
+    ("uncaught_rethrow_from_a_catch_block_in_a_loop", &["for i in 0..3 { try { throw i; } catch e { throw e; } }\n"]),
+    ("uncaught_throw_after_continue_left_finally_blocks_with_exceptions_waiting", &["fn zw() { for i in 0..2 { try { throw \"p\"; } finally { continue; } } throw \"end\"; }\nzw();\n"]),
+    ("uncaught_throw_from_a_catch_block_with_its_finally_waiting", &["try { throw \"a\"; } catch e { throw \"b\"; } finally { print(\"fin\"); }\n"]),
+    ("compile_error", &["var = ;\n"]),
+    ("error_while_a_class_is_half_declared", &["#[derive(zznope)]\nclass ZBad { fn m(self) {} }\n"]),
+    ("error_in_a_method_of_a_class_declared_in_a_function", &["fn zmk() { #[constructor(new)]\nclass ZZ { fn m(self) { return [][3]; } }\nreturn ZZ.new().m(); }\nzmk();\n"]),
+    ("uncaught_call_stack_overflow", &["fn zrec(n) { return zrec(n + 1); }\nzrec(0);\n"]),
+    ("uncaught_error_with_an_unfinished_literal_on_the_stack", &["var zv = [1, 2, (3, [][5]), 4];\n"]),
+    ("uncaught_error_inside_an_interpolation_inside_a_call", &["fn zid(a, b) { return a; }\nprint(zid(1, \"a${[][3]}b\"));\n"]),
+    ("uncaught_error_in_a_callback_of_a_library_function", &["[1, 2, 3].iter().map(|x| { throw \"cb\"; }).collect();\n"]),
+    ("uncaught_error_in_a_reduce_callback_inside_a_for_loop", &["for zz in [1, 2] { [1, 2, 3].iter().reduce(|a, b| a + nil, 0); }\n"]),
+    ("yield_outside_any_fiber", &["Fiber.yield(1);\n"]),
+    ("a_fiber_left_suspended_inside_try_finally", &["var zsf = Fiber.new(|| { try { Fiber.yield(1); } finally { print(\"sf finally\"); } return 2; });\nprint(zsf.call());\n"]),
+    ("a_fiber_suspended_in_a_callee_of_a_fiber_then_an_uncaught_throw", &["var zin = Fiber.new(|| { Fiber.yield(1); Fiber.yield(2); });\nvar zout = Fiber.new(|| { zin.call(); Fiber.yield(\"o\"); zin.call(); throw \"outer dies\"; });\nzout.call();\nzout.call();\n"]),
+    ("a_closure_escaped_from_a_frame_discarded_by_an_uncaught_throw", &["var zesc = nil;\nfn zmk2() { var x = \"kept\"; zesc = || x; throw \"after escape\"; }\nzmk2();\n"]),
+    ("failed_import_of_a_missing_module", &["import \"zz_no_such_module\";\n"]),
+    ("failed_import_of_a_module_that_does_not_compile", &["import \"zz_badsyn\";\n"]),
+    ("uncaught_throw_then_reset", &["fn zt3() { try { throw \"deep\"; } finally { print(\"f\"); } }\nzt3();\n", "\u{0}reset"]),
+    ("two_failed_runs", &["fn zr2() { try { return 1; } finally { throw \"in finally\"; } }\nzr2();\n", "Fiber.new(|| { try { throw \"in fiber\"; } finally { print(\"ff\"); } }).call();\n"]),
+    ("uncaught_error_in_a_for_loop_over_a_user_iterator_inside_try_finally", &["#[constructor(new)]\nclass ZIt { fn iter(self) { return self; } fn next(self) { return [][7]; } }\nfn zloop() { try { for x in ZIt.new() { print(x); } } finally { print(\"lf\"); } }\nzloop();\n"]),
+    ("assignment_to_an_undefined_global_in_a_fiber", &["Fiber.new(|| { zzug = 1; }).call();\n"]),
+];
+
+/// Programs of the other properties' corpora, each started from every history above on one interpreter:
+/// the program must print and end as M-eval says it does on a new interpreter (the differential form of
+/// "failed runs leave no residue": the state reached from elsewhere against the state reached from the
+/// initial state, with every construct of the language as the probe).
+fn after_history_cases(thorough: bool) -> Vec<crate::mcheck::Case> {
+    use crate::mcheck::Case;
+    let mut corpus: Vec<Case> = Vec::new();
+    for n in crate::c08::nests_of_depth(1) {
+        corpus.push(Case::new("after_history", crate::c08::program(&[n])));
+    }
+    corpus.extend(crate::c08::reentered_after_abrupt_finally_exit());
+    corpus.extend(crate::c08::recursion_from_finally().into_iter().step_by(if thorough { 1 } else { 4 }));
+    corpus.extend(crate::c08::loop_with_pair_cases().into_iter().step_by(if thorough { 7 } else { 49 }));
+    corpus.extend(crate::c06::cases_for_c04(false).into_iter().step_by(if thorough { 3 } else { 16 }));
+    corpus.extend(crate::c07::cases_for_c04(false).into_iter().step_by(if thorough { 5 } else { 40 }));
+    corpus.extend(crate::c18::cases_for_c04(false).into_iter().step_by(if thorough { 2 } else { 9 }));
+    corpus.extend(crate::c05::cases_for_c04(false).into_iter().step_by(if thorough { 11 } else { 90 }));
+    corpus.extend(crate::c17::cases_for_c01(false).into_iter().step_by(if thorough { 1 } else { 6 }));
+    if thorough {
+        for n in crate::c08::nests_of_depth(2).into_iter().step_by(5) {
+            corpus.push(Case::new("after_history", crate::c08::program(&[n])));
+        }
+    }
+    let mut out = Vec::new();
+    for (_, hist) in HISTORIES {
+        for c in &corpus {
+            let mut k = Case::new("program_after_history", c.prog.clone());
+            k.modules = c.modules.clone();
+            k.modules.insert("zz_badsyn".to_string(), crate::meval::ModuleSource { program: None, compile_error: true });
+            k.opts = c.opts;
+            k.note = c.note.clone();
+            k.prelude = hist.iter().map(|s| s.to_string()).collect();
+            out.push(k);
+        }
+    }
+    out
+}
+
 /// the model: what a snippet prints, how it ends, and the state afterwards
 fn step(s: &St, name: &str) -> (St, Vec<String>, String) {
     let mut n = s.clone();
@@ -359,5 +432,30 @@ pub fn run(ctx: &Ctx) -> Report {
     report.assumptions = vec!["counters are bounded (g <= 3, m.v <= 12) to keep the state space finite".into()];
     record_known(&mut report, &active, &stats.attributed);
     report.violations.extend(stats.violations);
+    // second engine: corpus programs started from every history
+    {
+        let hooks = crate::mcheck::Hooks { attribute: &|_c, _m, _o, _mm| None, nontrivial: &|_c, _m| true, fuel: 2_000_000 };
+        let cases = after_history_cases(thorough);
+        let n = cases.len();
+        let st = crate::mcheck::run(ctx, cases.into_iter(), &hooks);
+        report.cov(
+            "programs_after_histories",
+            json!({
+                "rule": "every program of a corpus drawn from the other properties' generators (all C08 nests of depth 1, re-entered try statements, recursion from finally blocks, and strided selections of the C05 statement/expression, C06 closure, C07 class, C17 error-report, C18 iteration and C08 loop-with-pair programs) is run as the last snippet on an interpreter that first went through each history of the list; its printed lines and outcome must equal what M-eval gives for the program on its own, and no snippet may panic",
+                "histories": HISTORIES.iter().map(|(n, _)| *n).collect::<Vec<_>>(),
+                "cases": n,
+                "distinct_programs": st.distinct.len(),
+                "executions": st.executions,
+                "model_ok": st.model_ok,
+                "model_uncaught_error": st.model_uncaught,
+                "skipped_outside_model": st.unsupported,
+                "distinct_model_outcomes": st.outcome_signatures.len(),
+            }),
+        );
+        if st.unsupported * 10 > n {
+            crate::pool::machinery_failure("programs_after_histories: more than a tenth of the corpus is outside the model");
+        }
+        report.violations.extend(st.violations);
+    }
     report
 }
